@@ -46,8 +46,14 @@ Proof.
   rewrite bytes_eqb_refl. lia.
 Qed.
 
-Lemma seek_eq img off : seek img off = skipn (Z.to_nat off) img.
-Proof. reflexivity. Qed.
+Lemma seek_eq : forall img off, seek img off = skipn (Z.to_nat off) img.
+Proof.
+  induction img as [|x r IH]; intros off; cbn [seek].
+  - destruct (off <=? 0); rewrite skipn_nil; reflexivity.
+  - destruct (Z.leb_spec off 0) as [H|H].
+    + replace (Z.to_nat off) with 0%nat by lia. reflexivity.
+    + replace (Z.to_nat off) with (S (Z.to_nat (off - 1))) by lia. cbn [skipn]. apply IH.
+Qed.
 
 Lemma str_at_get_string img st o s :
   str_at img (sh_offset st + o) s = true -> get_string img st o = s.
@@ -55,11 +61,9 @@ Proof.
   unfold str_at, get_string. intros H. apply andb_prop in H. destruct H as [Hn Hp].
   apply placed_skipn in Hp. destruct Hp as [H0 [tail Ht]].
   rewrite <- app_assoc in Ht. cbn [app] in Ht.
-  assert (Hl : (List.length (skipn (Z.to_nat (sh_offset st + o)) img) <= List.length img)%nat)
-    by (rewrite skipn_length; lia).
-  cbv zeta. unfold parse_cstring_at. rewrite Ht.
+  cbv zeta. rewrite seek_eq, Ht.
   rewrite cstr_chunks_valid; [reflexivity|exact Hn|].
-  rewrite Ht in Hl. rewrite !app_length in Hl. cbn [List.length] in Hl. unfold CHUNK. lia.
+  rewrite !app_length. cbn [List.length]. unfold CHUNK. lia.
 Qed.
 
 (* ---- Enum bindings that are not strict never fail ---- *)
